@@ -53,6 +53,7 @@ TEMPLATES = [
      '<use id="u2" href="#dg" x="70" y="20"/>'
      '<svg id="s2" x="5" y="30" width="40" height="15" viewBox="0 0 80 30" preserveAspectRatio="xMinYMin meet">'
      '<rect id="r2" x="2" y="2" width="10" height="10"/></svg>'
+     '<rect id="late" x="80" y="2" width="3" height="3" fill="#010"/><use id="ulate" xlink:href="#late" y="6" clip-path="url(#late)"/>'
      '<rect id="last" x="90" y="40" width="5" height="5"/></svg>') % NS,
     ('<svg %s id="root">'
      '<defs id="defs"><g id="dg"><rect id="dr" width="4" height="3"/><use id="du" xlink:href="#dp" x="1"/></g>'
@@ -67,7 +68,7 @@ TEMPLATES = [
      '<use id="uy" xlink:href="#gx" y="12"/>'
      '<ellipse id="e1" cx="30" cy="30" rx="4" ry="2" fill="url(#pat)"/>'
      '<line id="last" x1="0" y1="0" x2="9" y2="9" stroke="black"/></svg>') % NS,
-    ('<svg %s id="root" width="120" height="80">'
+    ('<svg %s id="root" width="120" height="80" viewBox="0 0 120 80">'
      '<defs id="defs"><pattern id="pat" x="1" y="1" width="4" height="4" viewBox="0 0 8 8" preserveAspectRatio="xMidYMid meet" '
      'patternTransform="rotate(5)"><circle id="pc" r="1" fill="red"/></pattern>'
      '<symbol id="sym" viewBox="0 0 10 10"><rect id="sr" width="10" height="10" fill="#333"/></symbol></defs>'
@@ -79,7 +80,7 @@ TEMPLATES = [
      '<a id="a1" transform="translate(3,3)"><circle id="c1" cx="5" cy="5" r="2" fill="blue"/></a>'
      '<switch id="sw"><g id="g1" transform="skewY(3)" opacity="0.5"><line id="l1" x1="0" y1="0" x2="5%%" y2="5%%" stroke="red" stroke-width="1"/></g></switch>'
      '<use id="u1" xlink:href="#sym" x="40" y="40" width="20" height="20"/>'
-     '<svg id="s2" x="5" y="30" width="40" height="16" viewBox="0 0 80 30"><rect id="r2" x="10%%" y="10%%" width="50%%" height="50%%"/></svg>'
+     '<svg id="s2" x="5" y="30" width="40" height="16" viewBox="0 0 80 30"><rect id="r2" x="10%%" y="10%%" width="50%%" height="50%%" stroke="red" stroke-width="2%%"/></svg>'
      '<rect id="last" x="50%%" y="50%%" width="25%%" height="25%%" stroke="black" stroke-width="1%%"/></svg>') % NS,
 ]
 
@@ -93,7 +94,10 @@ MENU = {
     "color": ["rgb(1.5,2,3)", "rgb(1,2)", "#12", "#ggg", "hsl(x,1%,1%)", "", "url(#nope)", "notacolor", "rgb(300,-5,2)",
               "#1234567", "hsl(10,20,30)", "rgb(1e999%,2%,3%)", "rgba(1,2,3,1e999)", "hsl(1e999,1e999%,-1e999%)",
               "rgb(99999999999999999999,1,1)", "rgb(nan,1,1)", "rgb(1e999,0,0)", "rgb(-1e400,1,1)", "rgb(1.5e3,2,3)", "rgba(1E+309,1,1,1)",
-              "hsl(1e999deg,1%,1%)", "hsla(1,2%,3%,1e999)", "rgb(1,2,3,)", "rgb(,,)", "hsl()", "#", "url(", "currentColor x"],
+              "hsl(1e999deg,1%,1%)", "hsla(1,2%,3%,1e999)",
+              # an overflowing number in every argument position of every functional form
+              "rgb(1,1e999,1)", "rgb(1,1,-1e999)", "rgb(1%,1e999%,1%)", "rgb(1%,1%,-1e999%)", "rgba(1%,1%,1%,1e999)",
+              "hsl(1,1e999%,1%)", "hsl(1,1%,1e999%)", "hsla(1e999,1%,1%,0.5)", "rgb(1,2,3,)", "rgb(,,)", "hsl()", "#", "url(", "currentColor x"],
     "length": ["abc", "", "-5", "1e999", "5 5", "nan", "1e-400", "%", "10%%", "1em", "inf", "0x10", "1e", "+", "--1", "1pxpx", "."],
     "points": ["1", "1,2 3", "a,b", "", "1,2,3", "1e999,2 3,4", "1 2 3 4 5"],
     "viewbox": ["0 0 0 0", "a b", "0 0 10", "0 0 -5 5", "", "0,0,1e999,5", "1 2 3 4 5"],
@@ -212,8 +216,11 @@ def observe(svg, text):
                 g = dc.lib_geometry(svg, e)
             except Exception as ex:  # noqa
                 g = "geometry raised %s" % type(ex).__name__
+            clip = getattr(e, "clip_path", None)
             out.append((e.id, type(e).__name__, g, dc.color_tuple(e.fill), dc.color_tuple(e.stroke),
-                        None if e.stroke_width is None else round(float(e.stroke_width), 9)))
+                        None if e.stroke_width is None else round(float(e.stroke_width), 9),
+                        None if clip is None else (type(clip).__name__, getattr(clip, "id", None))))
+    observe.ids = sorted(k for k in getattr(d, "objects", {}) if isinstance(k, str))
     return out
 
 
@@ -298,8 +305,10 @@ class Faults(SubCheck):
             out.outcome = ("root", len(fobs))
             out.nontrivial.append(ftext)
             return out
+        fids = list(getattr(observe, "ids", []))
         try:
             robs = observe(svg, serialize(rroot))
+            rids = list(getattr(observe, "ids", []))
         except Exception as e:  # noqa
             out.fail("HARNESS: the document without the faulty element does not parse: %r" % e, harness=True)
             return out
@@ -325,11 +334,18 @@ class Faults(SubCheck):
             same_id = [o for o in fobs if o[0] == missing[0] and o[1] == missing[1]]
             what = None
             if same_id:
-                what = [n for n, x, y in zip(("id", "kind", "geometry", "fill", "stroke", "stroke_width"), same_id[0], missing) if x != y]
+                what = [n for n, x, y in zip(("id", "kind", "geometry", "fill", "stroke", "stroke_width", "clip_path"), same_id[0], missing) if x != y]
             out.fail("fault %s=%r: element %r outside the faulty subtree is %s" % (
                 tags["slots"], tags["values"], missing[0], ("changed in %s" % what) if same_id else "no longer rendered"),
                 [missing[3], missing[4], missing[5]], [same_id[0][3], same_id[0][4], same_id[0][5]] if same_id else None,
                 kind="outside-changed" if same_id else "outside-missing", victim=missing[0], changed=what, **tags)
+            return out
+        # (a') every id that is reachable through the document's registry without the faulty element still is
+        exq = excluded_ids(clean_root, fl)
+        lost = [i for i in rids if i not in fids and i not in exq]
+        if lost:
+            out.fail("fault %s=%r: ids %r outside the faulty subtree are no longer registered (get_element_by_id)" % (
+                tags["slots"], tags["values"], lost), rids, fids, kind="outside-id-lost", **tags)
             return out
         # (b) whatever else the faulty document renders belongs to the faulty element's subtree / instances
         rest = list(fobs)
